@@ -9,6 +9,8 @@ package doccomposer
 import (
 	"encoding/json"
 	"fmt"
+	"strconv"
+	"strings"
 
 	jsonpatch "github.com/evanphx/json-patch"
 
@@ -81,7 +83,7 @@ func applyPatch(doc document.Document, p patch.Patch) (document.Document, error)
 	return nil, fmt.Errorf("action '%s' is not supported", action)
 }
 
-func applyJSON(doc document.Document, entry interface{}) (document.Document, error) {
+func applyJSON(doc document.Document, entry interface{}) (result document.Document, err error) {
 	logger.Debug("Applying JSON patch", logfields.WithPatch(entry))
 
 	bytes, err := json.Marshal(entry)
@@ -99,12 +101,75 @@ func applyJSON(doc document.Document, entry interface{}) (document.Document, err
 		return nil, err
 	}
 
-	docBytes, err = jsonPatches.Apply(docBytes)
-	if err != nil {
-		return nil, err
+	// the JSON patch library panics on some malformed operations (e.g. negative array index, missing value)
+	defer func() {
+		if r := recover(); r != nil {
+			result, err = nil, fmt.Errorf("failed to apply JSON patch: %v", r)
+		}
+	}()
+
+	// Operations are applied one at a time: the JSON patch library copies values by reference, so within one
+	// call a copied value stays shared with (and can be nested into) the value it was copied from.
+	for i := range jsonPatches {
+		err = validateCopyTarget(jsonPatches[i])
+		if err != nil {
+			return nil, err
+		}
+
+		docBytes, err = jsonPatches[i : i+1].Apply(docBytes)
+		if err != nil {
+			return nil, err
+		}
 	}
 
 	return document.FromBytes(docBytes)
+}
+
+// validateCopyTarget rejects a 'copy' operation that copies a value into one of its own children:
+// the JSON patch library would create a cyclic value and exhaust the stack while serializing it.
+func validateCopyTarget(op map[string]*json.RawMessage) error {
+	if jsonPatchMember(op, "op") != "copy" {
+		return nil
+	}
+
+	from := strings.Split(jsonPatchMember(op, "from"), "/")
+	path := strings.Split(jsonPatchMember(op, "path"), "/")
+
+	if len(from) < 2 || len(path) <= len(from) { //nolint:gomnd
+		return nil
+	}
+
+	for i := range from {
+		if !sameJSONPointerToken(from[i], path[i]) {
+			return nil
+		}
+	}
+
+	return fmt.Errorf("cannot copy '%s' into its own child '%s'", strings.Join(from, "/"), strings.Join(path, "/"))
+}
+
+func jsonPatchMember(op map[string]*json.RawMessage, name string) string {
+	var value string
+
+	if raw := op[name]; raw != nil {
+		if err := json.Unmarshal(*raw, &value); err != nil {
+			return ""
+		}
+	}
+
+	return value
+}
+
+// sameJSONPointerToken returns true if both reference tokens address the same member or the same array element.
+func sameJSONPointerToken(a, b string) bool {
+	if a == b {
+		return true
+	}
+
+	i, errA := strconv.Atoi(a)
+	j, errB := strconv.Atoi(b)
+
+	return errA == nil && errB == nil && i == j
 }
 
 func applyRecover(replaceDoc interface{}) (document.Document, error) {
